@@ -43,6 +43,15 @@ const hp = "pkg/protocols/httpprot"
 // (muxResultHolders follows the error through `return resp.FetchPayload(..)`); the declared length,
 // the payload length and the probe count may sit in locals. Mutants re-tried on refactored forms:
 // selection helper that never falls back → R-C07-2; helper that drops the fetch error → R-C07-5.
+//
+// Second iteration: both FetchPayload rules run over the reach with helpers interpreted in place
+// (bodies shared between Request and Response, values carried in a struct literal, the sentinel as
+// a parameter or field), the effective limit may be a copy of the parameter or come out of a
+// helper, every spelling of the limit / the declared length is recognised by value flow; the
+// 413/400 mapping may sit in a helper, use errors.Is or a predicate, and choose the status into a
+// local; buildResponse and its caller are resolved by role. Mutants re-tried: statuses swapped in
+// the helper → R-C07-1; default replacement dropped / helper never defaults → R-C07-3; declared
+// test dropped in the shared body → R-C07-3; probe result ignored → R-C07-4.
 func c07(c *core.Ctx) string {
 	c.Rule("R-C07-1", "fetch before dispatch: every path of serveHTTP to a handler passes req.FetchPayload with a nil error; ErrRequestEntityTooLarge ⇒ 413 response and return; any other error ⇒ 400 and return")
 	c.Rule("R-C07-2", "effective limit: the limit handed to FetchPayload is the specific (path / pool) value, replaced by the general (server / proxy) value exactly when the specific one is 0")
@@ -79,12 +88,10 @@ func c07Serve(c *core.Ctx) {
 		return
 	}
 	f := s.f
-	errNil := f.NilKey(s.errVar)
-	tooLarge := "eq:" + f.Render(s.errVar) + "==@" + Mod + hp + ".ErrRequestEntityTooLarge"
 	for _, d := range s.dispatch {
 		var bad *flow.State
 		for _, st := range s.res.At[d] {
-			if !st.Is(errNil, flow.True) {
+			if s.errNil(st) != flow.True {
 				bad = st
 			}
 		}
@@ -99,13 +106,14 @@ func c07Serve(c *core.Ctx) {
 			continue
 		}
 		st := ex.State
-		if !st.Is(errNil, flow.False) && !st.Is(tooLarge, flow.True) {
+		tooLarge := s.errTooLarge(st)
+		if s.errNil(st) != flow.False && !tooLarge {
 			continue
 		}
 		if st.Is("ev:dispatched", flow.True) {
 			bad, why = st, "the pipeline ran although FetchPayload failed"
 		}
-		if st.Is(tooLarge, flow.True) {
+		if tooLarge {
 			n413++
 			if !st.Is("ev:fail:413", flow.True) {
 				bad, why = st, "ErrRequestEntityTooLarge is not answered with 413 Request Entity Too Large"
@@ -124,12 +132,12 @@ func c07Serve(c *core.Ctx) {
 	}
 }
 
-// c07Src tracks, path-sensitively and through calls interpreted in place, whether the value of an
+// muxSrc tracks, path-sensitively and through calls interpreted in place, whether the value of an
 // integer variable comes from the specific setting (fact value True), the general setting (False)
 // or something else (unknown), and what the code has learned about "the specific setting is 0"
 // (event ev:Szero). Events: ev:src:<var>, ev:ret:<func> (source of the value a function returned),
 // ev:pend:<var>\x00<func> (the variable is being assigned the result of that call).
-type c07Src struct {
+type muxSrc struct {
 	f                 *flow.Func
 	specific, general *types.Var
 	inl               func(*ast.CallExpr, *types.Func) *flow.Func
@@ -137,10 +145,25 @@ type c07Src struct {
 	vf                *muxFlow
 	sRenders          map[string]bool
 	seed              map[string]flow.Val // initial sources of the root function's parameters
+
+	p             string                                     // prefix of the event keys ("ev:" + namespace)
+	classify      func(e ast.Expr) flow.Val                  // source class of an expression (overrides the two fields)
+	classifyTuple func(call *ast.CallExpr, idx int) flow.Val // source class of result idx of a call that is not interpreted in place
 }
 
-func newC07Src(f *flow.Func, fns []*flow.Func, specific, general *types.Var, inl func(*ast.CallExpr, *types.Func) *flow.Func) *c07Src {
-	t := &c07Src{f: f, specific: specific, general: general, inl: inl, retOwner: map[*ast.ReturnStmt]*types.Func{}, vf: newMuxFlow(fns), sRenders: map[string]bool{}, seed: map[string]flow.Val{}}
+// newMuxSrc creates a tracker with its own event namespace and classification.
+func newMuxSrc(f *flow.Func, fns []*flow.Func, ns string, classify func(e ast.Expr) flow.Val, inl func(*ast.CallExpr, *types.Func) *flow.Func) *muxSrc {
+	t := &muxSrc{f: f, inl: inl, retOwner: map[*ast.ReturnStmt]*types.Func{}, vf: newMuxFlow(fns), sRenders: map[string]bool{}, seed: map[string]flow.Val{}, p: "ev:" + ns, classify: classify}
+	for fo, rets := range t.vf.rets {
+		for _, r := range rets {
+			t.retOwner[r] = fo
+		}
+	}
+	return t
+}
+
+func newC07Src(f *flow.Func, fns []*flow.Func, specific, general *types.Var, inl func(*ast.CallExpr, *types.Func) *flow.Func) *muxSrc {
+	t := &muxSrc{f: f, specific: specific, general: general, inl: inl, retOwner: map[*ast.ReturnStmt]*types.Func{}, vf: newMuxFlow(fns), sRenders: map[string]bool{}, seed: map[string]flow.Val{}, p: "ev:"}
 	for fo, rets := range t.vf.rets {
 		for _, r := range rets {
 			t.retOwner[r] = fo
@@ -158,7 +181,10 @@ func newC07Src(f *flow.Func, fns []*flow.Func, specific, general *types.Var, inl
 }
 
 // class: True for a selection of the specific field, False for the general field.
-func (t *c07Src) class(e ast.Expr) flow.Val {
+func (t *muxSrc) class(e ast.Expr) flow.Val {
+	if t.classify != nil {
+		return t.classify(ast.Unparen(e))
+	}
 	sel, ok := ast.Unparen(e).(*ast.SelectorExpr)
 	if !ok {
 		return flow.Unknown
@@ -174,7 +200,7 @@ func (t *c07Src) class(e ast.Expr) flow.Val {
 	return flow.Unknown
 }
 
-func (t *c07Src) inlined(call *ast.CallExpr) *types.Func {
+func (t *muxSrc) inlined(call *ast.CallExpr) *types.Func {
 	if call == nil || call.Ellipsis.IsValid() {
 		return nil
 	}
@@ -186,7 +212,7 @@ func (t *c07Src) inlined(call *ast.CallExpr) *types.Func {
 }
 
 // get returns the source of the value of e in st.
-func (t *c07Src) get(st *flow.State, e ast.Expr) flow.Val {
+func (t *muxSrc) get(st *flow.State, e ast.Expr) flow.Val {
 	e = ast.Unparen(e)
 	if v := t.class(e); v != flow.Unknown {
 		return v
@@ -203,64 +229,64 @@ func (t *c07Src) get(st *flow.State, e ast.Expr) flow.Val {
 	}
 	r := t.f.Render(id)
 	for _, fact := range st.Facts() {
-		if strings.HasPrefix(fact, "ev:pend:"+r+"\x00") {
-			return st.Get("ev:ret:" + fact[len("ev:pend:"+r+"\x00"):len(fact)-2])
+		if strings.HasPrefix(fact, t.p+"pend:"+r+"\x00") {
+			return st.Get(t.p + "ret:" + fact[len(t.p+"pend:"+r+"\x00"):len(fact)-2])
 		}
 	}
-	return st.Get("ev:src:" + r)
+	return st.Get(t.p + "src:" + r)
 }
 
 // settle resolves the variables (and return slots) waiting for a call that has returned.
-func (t *c07Src) settle(st *flow.State) {
+func (t *muxSrc) settle(st *flow.State) {
 	for changed, n := true, 0; changed && n < 4; n++ {
 		changed = false
 		for _, fact := range st.Facts() {
-			if !strings.HasPrefix(fact, "ev:pend:") {
+			if !strings.HasPrefix(fact, t.p+"pend:") {
 				continue
 			}
 			key := fact[:len(fact)-2]
-			parts := strings.SplitN(key[len("ev:pend:"):], "\x00", 2)
+			parts := strings.SplitN(key[len(t.p+"pend:"):], "\x00", 2)
 			if len(parts) != 2 {
 				continue
 			}
-			retKey := "ev:ret:" + parts[1]
-			if st.Get("ev:returned:"+parts[1]) != flow.True {
+			retKey := t.p + "ret:" + parts[1]
+			if st.Get(t.p+"returned:"+parts[1]) != flow.True {
 				continue
 			}
 			v := st.Get(retKey)
 			st.Set(key, flow.Unknown)
 			if strings.HasPrefix(parts[0], "ret:") {
-				st.Set("ev:"+parts[0], v)
-				st.Set("ev:returned:"+parts[0][len("ret:"):], flow.True)
+				st.Set(t.p+parts[0], v)
+				st.Set(t.p+"returned:"+parts[0][len("ret:"):], flow.True)
 			} else {
-				st.Set("ev:src:"+parts[0], v)
+				st.Set(t.p+"src:"+parts[0], v)
 			}
 			changed = true
 		}
 	}
 }
 
-func (t *c07Src) setVar(st *flow.State, l ast.Expr, v flow.Val) {
+func (t *muxSrc) setVar(st *flow.State, l ast.Expr, v flow.Val) {
 	id := muxIdentOf(l)
 	if id == nil || id.Name == "_" {
 		return
 	}
 	r := t.f.Render(id)
 	for _, fact := range st.Facts() {
-		if strings.HasPrefix(fact, "ev:pend:"+r+"\x00") {
+		if strings.HasPrefix(fact, t.p+"pend:"+r+"\x00") {
 			st.Set(fact[:len(fact)-2], flow.Unknown)
 		}
 	}
-	st.Set("ev:src:"+r, v)
+	st.Set(t.p+"src:"+r, v)
 }
 
-func (t *c07Src) await(st *flow.State, slot string, fo *types.Func) {
-	st.Set("ev:ret:"+fo.FullName(), flow.Unknown)
-	st.Set("ev:returned:"+fo.FullName(), flow.Unknown)
-	st.Set("ev:pend:"+slot+"\x00"+fo.FullName(), flow.True)
+func (t *muxSrc) await(st *flow.State, slot string, fo *types.Func) {
+	st.Set(t.p+"ret:"+fo.FullName(), flow.Unknown)
+	st.Set(t.p+"returned:"+fo.FullName(), flow.Unknown)
+	st.Set(t.p+"pend:"+slot+"\x00"+fo.FullName(), flow.True)
 }
 
-func (t *c07Src) onNode(st *flow.State, n ast.Node) {
+func (t *muxSrc) onNode(st *flow.State, n ast.Node) {
 	t.settle(st)
 	switch x := n.(type) {
 	case *ast.AssignStmt:
@@ -285,8 +311,12 @@ func (t *c07Src) onNode(st *flow.State, n ast.Node) {
 				t.setVar(st, l, vals[i])
 			}
 		default:
-			for _, l := range x.Lhs {
-				t.setVar(st, l, flow.Unknown)
+			for i, l := range x.Lhs {
+				v := flow.Unknown
+				if call := c07CallOf(x.Rhs[0]); call != nil && len(x.Rhs) == 1 && t.classifyTuple != nil {
+					v = t.classifyTuple(call, i)
+				}
+				t.setVar(st, l, v)
 			}
 		}
 	case *ast.ValueSpec:
@@ -309,21 +339,21 @@ func (t *c07Src) onNode(st *flow.State, n ast.Node) {
 		case len(x.Results) >= 1:
 			if len(x.Results) == 1 {
 				if callee := t.inlined(c07CallOf(x.Results[0])); callee != nil {
-					st.Set("ev:ret:"+name, flow.Unknown)
-					st.Set("ev:returned:"+name, flow.Unknown)
+					st.Set(t.p+"ret:"+name, flow.Unknown)
+					st.Set(t.p+"returned:"+name, flow.Unknown)
 					t.await(st, "ret:"+name, callee)
 					return
 				}
 			}
-			st.Set("ev:ret:"+name, t.get(st, x.Results[0]))
-			st.Set("ev:returned:"+name, flow.True)
+			st.Set(t.p+"ret:"+name, t.get(st, x.Results[0]))
+			st.Set(t.p+"returned:"+name, flow.True)
 		default:
 			v := flow.Unknown
 			if ids := t.vf.results[fo]; len(ids) >= 1 {
 				v = t.get(st, ids[0])
 			}
-			st.Set("ev:ret:"+name, v)
-			st.Set("ev:returned:"+name, flow.True)
+			st.Set(t.p+"ret:"+name, v)
+			st.Set(t.p+"returned:"+name, flow.True)
 		}
 	}
 }
@@ -334,7 +364,7 @@ func c07CallOf(e ast.Expr) *ast.CallExpr {
 }
 
 // onCall binds the parameters of a callee interpreted in place to the sources of the operands.
-func (t *c07Src) onCall(st *flow.State, call *ast.CallExpr, callee types.Object, deferred bool) {
+func (t *muxSrc) onCall(st *flow.State, call *ast.CallExpr, callee types.Object, deferred bool) {
 	if deferred {
 		return
 	}
@@ -367,24 +397,24 @@ func (t *c07Src) onCall(st *flow.State, call *ast.CallExpr, callee types.Object,
 }
 
 // afterAssume records what a zero test of a value of the specific setting has found.
-func (t *c07Src) afterAssume(st *flow.State) {
+func (t *muxSrc) afterAssume(st *flow.State) {
 	t.settle(st)
 	for _, fact := range st.Facts() {
 		if !strings.HasPrefix(fact, "eq:") || !(strings.HasSuffix(fact, "==0=T") || strings.HasSuffix(fact, "==0=F")) {
 			continue
 		}
 		x := fact[len("eq:") : len(fact)-len("==0=T")]
-		if t.sRenders[x] || st.Is("ev:src:"+x, flow.True) {
+		if t.sRenders[x] || st.Is(t.p+"src:"+x, flow.True) {
 			if strings.HasSuffix(fact, "=T") {
-				st.Set("ev:Szero", flow.True)
+				st.Set(t.p+"Szero", flow.True)
 			} else {
-				st.Set("ev:Szero", flow.False)
+				st.Set(t.p+"Szero", flow.False)
 			}
 		}
 	}
 }
 
-func (t *c07Src) config(extra flow.Config) flow.Config {
+func (t *muxSrc) config(extra flow.Config) flow.Config {
 	onNode, onCall, after, onBlock := extra.OnNode, extra.OnCall, extra.AfterAssume, extra.OnBlock
 	extra.NoHavoc = true
 	extra.OnNode = func(st *flow.State, n ast.Node) {
@@ -476,7 +506,7 @@ func c07LimitIn(c *core.Ctx, entry *flow.Func, cons string, fetch *ast.CallExpr,
 			for _, nm := range fld.Names {
 				if i < len(x.Args) {
 					if v := t.class(x.Args[i]); v != flow.Unknown {
-						t.seed["ev:src:"+h.Render(nm)] = v
+						t.seed[t.p+"src:"+h.Render(nm)] = v
 					}
 				}
 				i++
@@ -563,7 +593,7 @@ func c07Limit(c *core.Ctx) {
 		c07LimitIn(c, s.f, s.cons, s.fetch, s.ro.limitF, general, "clientMaxBodySize", opaque...)
 	}
 	px := "pkg/filters/proxy"
-	if f := fn(c, px, "ServerPool", "buildResponse"); f != nil {
+	if f := c07BuildResponseFn(c, "R-C07-2"); f != nil {
 		fetch, _ := c07RespFetch(f)
 		var specific, general *types.Var
 		if n := namedType(c, px, "ServerPoolSpec"); n != nil {
@@ -572,7 +602,7 @@ func c07Limit(c *core.Ctx) {
 		if n := namedType(c, px, "Spec"); n != nil {
 			general = muxOneField(n, "ServerMaxBodySize", func(v *types.Var) bool { return v.Name() == "ServerMaxBodySize" })
 		}
-		c07LimitIn(c, f, fname(px, "ServerPool", "buildResponse"), fetch, specific, general, "serverMaxBodySize")
+		c07LimitIn(c, f, muxFuncConstruct(f), fetch, specific, general, "serverMaxBodySize")
 	}
 }
 
@@ -587,87 +617,182 @@ func c07Fetch(c *core.Ctx, recv string) {
 		return
 	}
 	max := f.Type.Params.List[0].Names[0]
-	maxR := f.Render(max)
-	zeroKey := "eq:" + maxR + "==0"
-	negKey := "lt:" + maxR + "<0"
-	var mk, readFull, readAll, probe *ast.CallExpr
-	var streamSets []ast.Node
-	streamF := structField(c, hp, recv, "stream")
-	for _, call := range calls(f.Body, false) {
-		full := calleeFull(f, call)
-		switch {
-		case full == "builtin.make":
-			mk = call
-		case full == "io.ReadFull":
-			readFull = call
-		case full == "io.ReadAll" || full == "io/ioutil.ReadAll":
-			readAll = call
-		case (full == "io.Copy" || full == "io.CopyN" || full == "io.CopyBuffer") && len(call.Args) >= 2:
-			if strings.HasSuffix(f.Render(call.Args[0]), "io.Discard") {
-				probe = call
-			}
-		case calleeIs(f, call, "(*"+hp+"."+recv+").SetPayload") && len(call.Args) == 1:
-			// SetPayload(<Body>) makes a stream (Response side)
-			if tv, ok := f.Info.Types[call.Args[0]]; ok && tv.Type != nil && tv.Type.String() == "io.ReadCloser" {
-				streamSets = append(streamSets, call)
-			}
+	maxObj := f.Info.Defs[max]
+	// the body may be split into same-package helpers (also shared between Request and Response);
+	// SetPayload (the sink of the payload) stays uninterpreted
+	opaque := map[types.Object]bool{}
+	for _, r := range []string{"Request", "Response"} {
+		if g := fnOpt(c, hp, r, "SetPayload"); g != nil {
+			opaque[muxFuncObj(g)] = true
 		}
 	}
+	fns := muxReach(f, 3, opaque)
+	vf := newMuxFlow(fns)
+	info := f.Info
+	isDefaultConst := func(e ast.Expr) bool {
+		id := muxIdentOf(e)
+		if id == nil {
+			if sel, ok := ast.Unparen(e).(*ast.SelectorExpr); ok {
+				id = sel.Sel
+			}
+		}
+		if id == nil {
+			return false
+		}
+		cst, ok := info.Uses[id].(*types.Const)
+		return ok && cst.Name() == "DefaultMaxPayloadSize"
+	}
+	// the effective limit: the parameter, or the local it is copied into before 0 is replaced
+	lim := max
 	ast.Inspect(f.Body, func(n ast.Node) bool {
-		if as, ok := n.(*ast.AssignStmt); ok {
-			for _, l := range as.Lhs {
-				if sel, ok := ast.Unparen(l).(*ast.SelectorExpr); ok {
-					if s := f.Info.Selections[sel]; s != nil && s.Obj() == streamF {
-						streamSets = append(streamSets, as)
-					}
+		if as, ok := n.(*ast.AssignStmt); ok && len(as.Lhs) == 1 && len(as.Rhs) == 1 && isDefaultConst(as.Rhs[0]) {
+			if id := muxIdentOf(as.Lhs[0]); id != nil && vf.obj(id) != maxObj {
+				if def := vf.ident[vf.obj(id)]; def != nil {
+					lim = def
 				}
 			}
 		}
 		return true
 	})
+	limObj := vf.obj(lim)
+	limR := f.Render(lim)
+	zeroKey := "eq:" + limR + "==0"
+	// isLim: the expression denotes the effective limit (the limit variable, the parameter it was
+	// copied from, the default constant), also through fields of a struct literal and parameters
+	isLim := func(e ast.Expr) bool {
+		vs := vf.flat(e)
+		for _, v := range vs {
+			switch {
+			case v.root != nil && len(v.fields) == 0 && (v.root == limObj || v.root == maxObj):
+			case v.root == nil && v.expr != nil && isDefaultConst(v.expr):
+			default:
+				return false
+			}
+		}
+		return len(vs) > 0
+	}
+	// isCL: the expression denotes the declared length (ContentLength of the net/http message)
+	isCL := func(e ast.Expr) bool {
+		vs := vf.flat(e)
+		for _, v := range vs {
+			l := v.last()
+			if l == nil || l.Name() != "ContentLength" || l.Pkg() == nil || l.Pkg().Path() != "net/http" {
+				return false
+			}
+		}
+		return len(vs) > 0
+	}
+	limRenders, clRenders := map[string]bool{}, map[string]bool{}
+	for _, g := range fns {
+		ast.Inspect(g.Body, func(n ast.Node) bool {
+			var e ast.Expr
+			switch x := n.(type) {
+			case *ast.SelectorExpr:
+				if sl := info.Selections[x]; sl != nil && sl.Kind() == types.FieldVal {
+					e = x
+				}
+			case *ast.Ident:
+				if _, isVar := vf.obj(x).(*types.Var); isVar {
+					e = x
+				}
+			}
+			if e == nil {
+				return true
+			}
+			if tv, ok := info.Types[e]; ok && tv.Type != nil {
+				if b, isB := tv.Type.Underlying().(*types.Basic); !isB || b.Info()&types.IsInteger == 0 {
+					return true
+				}
+			}
+			r := f.Render(e)
+			if isLim(e) {
+				limRenders[r] = true
+			} else if isCL(e) {
+				clRenders[r] = true
+			}
+			return true
+		})
+	}
+	var mk, readFull, readAll, probe *ast.CallExpr
+	var streamSets []ast.Node
+	streamF := structField(c, hp, recv, "stream")
+	for _, g := range fns {
+		for _, call := range calls(g.Body, false) {
+			full := calleeFull(g, call)
+			switch {
+			case full == "builtin.make":
+				if tv, ok := info.Types[call]; ok && tv.Type != nil && tv.Type.String() == "[]byte" {
+					mk = call
+				}
+			case full == "io.ReadFull":
+				readFull = call
+			case full == "io.ReadAll" || full == "io/ioutil.ReadAll":
+				readAll = call
+			case (full == "io.Copy" || full == "io.CopyN" || full == "io.CopyBuffer") && len(call.Args) >= 2:
+				if strings.HasSuffix(f.Render(call.Args[0]), "io.Discard") {
+					probe = call
+				}
+			case methodName(call) == "SetPayload" && len(call.Args) == 1:
+				// SetPayload(<Body>) makes a stream (Response side)
+				if tv, ok := info.Types[call.Args[0]]; ok && tv.Type != nil && tv.Type.String() == "io.ReadCloser" {
+					streamSets = append(streamSets, call)
+				}
+			}
+		}
+		ast.Inspect(g.Body, func(n ast.Node) bool {
+			if as, ok := n.(*ast.AssignStmt); ok {
+				for _, l := range as.Lhs {
+					if sel, ok := ast.Unparen(l).(*ast.SelectorExpr); ok {
+						if s := info.Selections[sel]; s != nil && s.Obj() == streamF {
+							streamSets = append(streamSets, as)
+						}
+					}
+				}
+			}
+			return true
+		})
+	}
 	if mk == nil || readFull == nil || readAll == nil {
-		c.Errorf("R-C07-3: anchor: %s lacks make/ReadFull/ReadAll (make=%v ReadFull=%v ReadAll=%v)", cons, mk != nil, readFull != nil, readAll != nil)
+		c.Errorf("R-C07-3: anchor: %s (helpers included) lacks make/ReadFull/ReadAll (make=%v ReadFull=%v ReadAll=%v)", cons, mk != nil, readFull != nil, readAll != nil)
 		return
 	}
-	// error variables
-	var fullErr, probeErr, probeN *ast.Ident
-	var payloadVar *ast.Ident
-	ast.Inspect(f.Body, func(n ast.Node) bool {
-		as, ok := n.(*ast.AssignStmt)
-		if !ok || len(as.Rhs) != 1 {
+	// result variables
+	fullErrs := muxResultHolders(vf, readFull, 1)
+	var payloadVar, probeN *ast.Ident
+	for _, g := range fns {
+		ast.Inspect(g.Body, func(n ast.Node) bool {
+			as, ok := n.(*ast.AssignStmt)
+			if !ok || len(as.Rhs) != 1 || len(as.Lhs) != 2 {
+				return true
+			}
+			switch ast.Unparen(as.Rhs[0]) {
+			case ast.Expr(readAll):
+				payloadVar = muxIdentOf(as.Lhs[0])
+			case ast.Expr(probe):
+				if probe != nil {
+					probeN = muxIdentOf(as.Lhs[0])
+				}
+			}
 			return true
-		}
-		switch as.Rhs[0] {
-		case ast.Expr(readFull):
-			if len(as.Lhs) == 2 {
-				fullErr, _ = as.Lhs[1].(*ast.Ident)
-			}
-		case ast.Expr(readAll):
-			if len(as.Lhs) == 2 {
-				payloadVar, _ = as.Lhs[0].(*ast.Ident)
-			}
-		}
-		if probe != nil && as.Rhs[0] == ast.Expr(probe) && len(as.Lhs) == 2 {
-			probeN, _ = as.Lhs[0].(*ast.Ident)
-			probeErr, _ = as.Lhs[1].(*ast.Ident)
-		}
-		return true
-	})
+		})
+	}
+	var probeErrs map[types.Object]*ast.Ident
+	if probe != nil {
+		probeErrs = muxResultHolders(vf, probe, 1)
+	}
 	defaulted := "ev:defaulted"
-	res := analyze(c, f, flow.Config{NoHavoc: true,
+	res := muxAnalyzeInl(c, f, flow.Config{NoHavoc: true,
 		OnNode: func(st *flow.State, n ast.Node) {
 			as, ok := n.(*ast.AssignStmt)
 			if !ok || len(as.Lhs) != 1 || len(as.Rhs) != 1 {
 				return
 			}
-			if id, ok := as.Lhs[0].(*ast.Ident); ok && f.Info.Uses[id] == f.Info.Defs[max] {
-				if rid, ok := ast.Unparen(as.Rhs[0]).(*ast.Ident); ok {
-					if cst, ok := f.Info.Uses[rid].(*types.Const); ok && cst.Name() == "DefaultMaxPayloadSize" {
-						st.Set(defaulted, flow.True)
-						return
-					}
+			if id := muxIdentOf(as.Lhs[0]); id != nil && vf.obj(id) == limObj {
+				if isDefaultConst(as.Rhs[0]) {
+					st.Set(defaulted, flow.True)
+				} else {
+					st.Set(defaulted, flow.Unknown)
 				}
-				st.Set(defaulted, flow.False)
 			}
 		},
 		OnCall: func(st *flow.State, call *ast.CallExpr, callee types.Object, deferred bool) {
@@ -680,19 +805,51 @@ func c07Fetch(c *core.Ctx, recv string) {
 				st.Set("ev:probed", flow.True)
 			}
 		},
-	})
+	}, muxObjList(opaque)...)
 	if res == nil {
 		return
 	}
-	// (a) zero → default before anything else looks at the limit
+	// (a) zero → default before anything else looks at the limit: at every use the limit is the
+	// default constant, or known to be non-zero
+	// what is known about the limit is asked about every spelling of it (the limit variable, a
+	// copy, a field of a struct carrying it)
+	limFact := func(st *flow.State, prefix, suffix string) flow.Val {
+		for r := range limRenders {
+			if v := st.Get(prefix + r + suffix); v != flow.Unknown {
+				return v
+			}
+		}
+		return flow.Unknown
+	}
+	nonZero := func(st *flow.State) bool {
+		if st.Is(defaulted, flow.True) || limFact(st, "eq:", "==0") == flow.False {
+			return true
+		}
+		for _, fact := range st.Facts() {
+			if !strings.HasPrefix(fact, "eq:") || !strings.HasSuffix(fact, "=T") {
+				continue
+			}
+			i := strings.LastIndex(fact, "==")
+			if i < 0 || !limRenders[fact[len("eq:"):i]] {
+				continue
+			}
+			if v := fact[i+2 : len(fact)-2]; v != "" && v[0] >= '1' && v[0] <= '9' {
+				return true
+			}
+		}
+		return false
+	}
+	limRenders[limR] = true
+	_ = zeroKey
 	var bad *flow.State
 	why := ""
 	check := func(at ast.Node) {
 		for _, st := range res.At[at] {
-			if st.Is(zeroKey, flow.True) && !st.Is(defaulted, flow.True) {
+			switch {
+			case nonZero(st):
+			case limFact(st, "eq:", "==0") == flow.True:
 				bad, why = st, "a limit of 0 is used as is instead of the default limit"
-			}
-			if st.Get(zeroKey) == flow.Unknown && !st.Is(defaulted, flow.True) {
+			default:
 				bad, why = st, "the limit is used without the `0 means default` replacement having been applied"
 			}
 		}
@@ -708,7 +865,7 @@ func c07Fetch(c *core.Ctx, recv string) {
 	bad, why = nil, ""
 	for _, s := range streamSets {
 		for _, st := range res.At[s] {
-			if !st.Is(negKey, flow.True) {
+			if limFact(st, "lt:", "<0") != flow.True {
 				bad, why = st, "a stream is created although the limit is not negative (the body would bypass the size limit)"
 			}
 		}
@@ -718,7 +875,7 @@ func c07Fetch(c *core.Ctx, recv string) {
 	} else {
 		for _, at := range []ast.Node{mk, readAll} {
 			for _, st := range res.At[at] {
-				if !st.Is(negKey, flow.False) {
+				if limFact(st, "lt:", "<0") != flow.False {
 					bad, why = st, "the body is buffered although the limit may be negative (stream mode)"
 				}
 			}
@@ -726,45 +883,31 @@ func c07Fetch(c *core.Ctx, recv string) {
 		c.Check(bad == nil, "R-C07-3", cons+"|stream iff negative limit", pos(c, f.Body), sprintf("%d stream site(s) only under max<0; buffering only under max>=0", len(streamSets)), why, witness(bad)...)
 	}
 
-	// (c) allocation bounded: ContentLength > max is false at make/ReadFull. The declared length
-	// is the ContentLength field of the net/http message, possibly read into a local first.
-	vf := newMuxFlow([]*flow.Func{f})
-	isCL := func(e ast.Expr) bool {
-		sel, ok := vf.through(e).(*ast.SelectorExpr)
-		if !ok || sel.Sel.Name != "ContentLength" {
-			return false
-		}
-		sl := f.Info.Selections[sel]
-		return sl != nil && sl.Obj().Pkg() != nil && sl.Obj().Pkg().Path() == "net/http"
-	}
-	clRenders := map[string]bool{}
-	ast.Inspect(f.Body, func(n ast.Node) bool {
-		switch x := n.(type) {
-		case *ast.SelectorExpr:
-			if isCL(x) {
-				clRenders[f.Render(x)] = true
+	// (c) allocation bounded: ContentLength > limit is false at make/ReadFull. Both sides may be
+	// spelled through locals, parameters of helpers and fields of a struct carrying them.
+	clFact := func(st *flow.State) flow.Val {
+		for _, fact := range st.Facts() {
+			if !strings.HasPrefix(fact, "lt:") {
+				continue
 			}
-		case *ast.Ident:
-			if _, isVar := vf.obj(x).(*types.Var); isVar && isCL(x) {
-				clRenders[f.Render(x)] = true
+			body := fact[len("lt:") : len(fact)-2]
+			i := strings.Index(body, "<")
+			if i <= 0 {
+				continue
 			}
-		}
-		return true
-	})
-	var clKey string
-	for _, k := range []ast.Node{mk} {
-		for _, st := range res.At[k] {
-			for _, fact := range st.Facts() {
-				if strings.HasPrefix(fact, "lt:"+maxR+"<") && strings.HasSuffix(fact, "=F") && clRenders[fact[len("lt:"+maxR+"<"):len(fact)-2]] {
-					clKey = fact[:len(fact)-2]
+			if limRenders[body[:i]] && clRenders[body[i+1:]] {
+				if strings.HasSuffix(fact, "=T") {
+					return flow.True
 				}
+				return flow.False
 			}
 		}
+		return flow.Unknown
 	}
 	bad, why = nil, ""
 	for _, at := range []ast.Node{mk, readFull} {
 		for _, st := range res.At[at] {
-			if clKey == "" || !st.Is(clKey, flow.False) {
+			if clFact(st) != flow.False {
 				bad, why = st, "the buffer for a declared-length body is allocated/read without ContentLength having been found ≤ the limit (a client can make the gateway allocate any amount of memory, and the oversized body is not refused)"
 			}
 		}
@@ -780,8 +923,14 @@ func c07Fetch(c *core.Ctx, recv string) {
 		if r == nil {
 			return false
 		}
-		id, ok := vf.through(r).(*ast.Ident)
-		if ok && id.Name == sentinel && f.Info.Uses[id] != nil && f.Info.Uses[id].Parent() == f.Pkg.Types.Scope() {
+		vs := vf.flat(r)
+		all := len(vs) > 0
+		for _, v := range vs {
+			if v.root == nil || len(v.fields) != 0 || v.root.Name() != sentinel || v.root.Parent() != f.Pkg.Types.Scope() {
+				all = false
+			}
+		}
+		if all {
 			return true
 		}
 		// a (named) result variable known to hold the sentinel
@@ -793,7 +942,7 @@ func c07Fetch(c *core.Ctx, recv string) {
 	bad, why = nil, ""
 	tooLargeDeclared := 0
 	for _, ex := range res.Exits {
-		if ex.Kind == flow.ExitReturn && clKey != "" && ex.State.Is(clKey, flow.True) && !ex.State.Is(negKey, flow.True) {
+		if ex.Kind == flow.ExitReturn && clFact(ex.State) == flow.True && limFact(ex.State, "lt:", "<0") != flow.True {
 			tooLargeDeclared++
 			if !retSentinel(ex) {
 				bad, why = ex.State, "a declared length above the limit does not end in the too-large error"
@@ -803,23 +952,38 @@ func c07Fetch(c *core.Ctx, recv string) {
 	c.Check(bad == nil && tooLargeDeclared > 0, "R-C07-3", cons+"|declared length above the limit ⇒ too-large error", pos(c, f.Body), sprintf("%d exits", tooLargeDeclared), why+map[bool]string{true: "no exit for ContentLength > max", false: ""}[tooLargeDeclared == 0], witness(bad)...)
 
 	// (d) short read reported
+	holderIs := func(st *flow.State, hs map[types.Object]*ast.Ident, global string) bool {
+		for _, id := range hs {
+			if st.Is("eq:"+f.Render(id)+"==@"+global, flow.True) {
+				return true
+			}
+		}
+		return false
+	}
 	bad, why = nil, ""
 	mapped := false
 	nfull := 0
 	for _, ex := range res.Exits {
-		if ex.Kind != flow.ExitReturn || !ex.State.Is("ev:readfull", flow.True) || muxRetExpr(f, vf, ex) == nil {
+		rexp := muxRetExpr(f, vf, ex)
+		if ex.Kind != flow.ExitReturn || !ex.State.Is("ev:readfull", flow.True) || rexp == nil {
 			continue
 		}
 		nfull++
-		r, _ := muxRetExpr(f, vf, ex).(*ast.Ident)
-		if fullErr == nil || r == nil || f.Info.Uses[r] != f.Info.Defs[fullErr] && f.Info.Uses[r] != f.Info.Uses[fullErr] {
-			bad, why = ex.State, "after io.ReadFull the function does not return the read error (a body shorter than its declared length would be a truncated success)"
+		st := ex.State
+		// `return io.ErrUnexpectedEOF` on the io.EOF branch
+		if vs := vf.flat(rexp); len(vs) == 1 && vs[0].root != nil && vs[0].root.Pkg() != nil && vs[0].root.Pkg().Path() == "io" && vs[0].root.Name() == "ErrUnexpectedEOF" && holderIs(st, fullErrs, "io.EOF") {
+			mapped = true
 			continue
 		}
-		if ex.State.Is("eq:"+f.Render(r)+"==@io.EOF", flow.True) {
-			bad, why = ex.State, "io.EOF from a short read is returned unmapped"
+		r := muxIdentOf(rexp)
+		if r == nil || fullErrs[vf.obj(r)] == nil {
+			bad, why = st, "after io.ReadFull the function does not return the read error (a body shorter than its declared length would be a truncated success)"
+			continue
 		}
-		if ex.State.Is("eq:"+f.Render(r)+"==@io.ErrUnexpectedEOF", flow.True) {
+		if holderIs(st, fullErrs, "io.EOF") && !holderIs(st, fullErrs, "io.ErrUnexpectedEOF") {
+			bad, why = st, "io.EOF from a short read is returned unmapped"
+		}
+		if holderIs(st, fullErrs, "io.ErrUnexpectedEOF") {
 			mapped = true
 		}
 	}
@@ -833,15 +997,13 @@ func c07Fetch(c *core.Ctx, recv string) {
 	// ---- R-C07-4 chunked path
 	limOK := false
 	if len(readAll.Args) == 1 {
-		if lr, ok := ast.Unparen(readAll.Args[0]).(*ast.CallExpr); ok && calleeFull(f, lr) == "io.LimitReader" && len(lr.Args) == 2 {
-			if id, ok := ast.Unparen(lr.Args[1]).(*ast.Ident); ok && f.Info.Uses[id] == f.Info.Defs[max] {
-				limOK = true
-			}
+		if lr, ok := vf.through(readAll.Args[0]).(*ast.CallExpr); ok && calleeFull(f, lr) == "io.LimitReader" && len(lr.Args) == 2 && isLim(lr.Args[1]) {
+			limOK = true
 		}
 	}
 	c.Check(limOK, "R-C07-4", cons+"|unknown length read through LimitReader(limit)", pos(c, readAll), "io.ReadAll(io.LimitReader(body, max))",
 		"a body of unknown length is read without io.LimitReader(body, max): a chunked body of any size is buffered in memory")
-	if probe == nil || probeN == nil || probeErr == nil || payloadVar == nil {
+	if probe == nil || probeN == nil || len(probeErrs) == 0 || payloadVar == nil {
 		c.Violate("R-C07-4", cons+"|extra-byte probe", pos(c, readAll), "after the limited read there is no extra-byte probe into io.Discard: a chunked body larger than the limit is silently truncated to the limit and forwarded")
 		return
 	}
@@ -852,26 +1014,28 @@ func c07Fetch(c *core.Ctx, recv string) {
 	// facts
 	// "fewer bytes than the limit were read": len(payload) < limit, the length possibly in a local
 	lenRenders := map[string]bool{"len(" + f.Render(payloadVar) + ")": true}
-	ast.Inspect(f.Body, func(n ast.Node) bool {
-		if id, ok := n.(*ast.Ident); ok {
-			if _, isVar := vf.obj(id).(*types.Var); isVar {
-				if x := vf.lenOf(id); x != nil && muxIdentOf(x) != nil && vf.obj(muxIdentOf(x)) == vf.obj(payloadVar) {
-					lenRenders[f.Render(id)] = true
+	for _, g := range fns {
+		ast.Inspect(g.Body, func(n ast.Node) bool {
+			if id, ok := n.(*ast.Ident); ok {
+				if _, isVar := vf.obj(id).(*types.Var); isVar {
+					if x := vf.lenOf(id); x != nil && muxIdentOf(x) != nil && vf.obj(muxIdentOf(x)) == vf.obj(payloadVar) {
+						lenRenders[f.Render(id)] = true
+					}
 				}
 			}
-		}
-		return true
-	})
-	var shortKey string
-	for _, st := range res.At[probe] {
+			return true
+		})
+	}
+	short := func(st *flow.State) bool {
 		for _, fact := range st.Facts() {
-			if !strings.HasPrefix(fact, "lt:") {
+			if !strings.HasPrefix(fact, "lt:") || !strings.HasSuffix(fact, "=T") {
 				continue
 			}
 			if i := strings.Index(fact, "<"); i > 0 && lenRenders[fact[len("lt:"):i]] {
-				shortKey = fact[:len(fact)-2]
+				return true
 			}
 		}
+		return false
 	}
 	nPosKey, nZeroKey := "lt:0<"+f.Render(probeN), "eq:"+f.Render(probeN)+"==0"
 	bad, why = nil, ""
@@ -884,12 +1048,12 @@ func c07Fetch(c *core.Ctx, recv string) {
 		}
 		nall++
 		st := ex.State
-		isNilRet := f.Info.Types[rexp].IsNil()
+		isNilRet := info.Types[rexp].IsNil()
 		if id := muxIdentOf(rexp); id != nil && !isNilRet && st.Is(f.NilKey(id), flow.True) {
 			isNilRet = true
 		}
 		switch {
-		case shortKey != "" && st.Is(shortKey, flow.True):
+		case short(st):
 			// fewer bytes than the limit: fine, nil or the read error
 		case st.Is("ev:probed", flow.True):
 			if st.Is(nPosKey, flow.True) || st.Is(nZeroKey, flow.False) {
@@ -898,7 +1062,7 @@ func c07Fetch(c *core.Ctx, recv string) {
 					bad, why = st, "extra bytes beyond the limit do not yield the too-large error"
 				}
 			} else if st.Is(nPosKey, flow.False) || st.Is(nZeroKey, flow.True) {
-				if r, ok := rexp.(*ast.Ident); !ok || (f.Info.Uses[r] != f.Info.Defs[probeErr] && f.Info.Uses[r] != f.Info.Uses[probeErr]) {
+				if r := muxIdentOf(rexp); r == nil || probeErrs[vf.obj(r)] == nil {
 					if !isNilRet {
 						bad, why = st, "a body of exactly the limit is not accepted (the probe found no extra byte)"
 					}
@@ -920,55 +1084,66 @@ func c07Fetch(c *core.Ctx, recv string) {
 	c.Check(bad == nil && nall > 0, "R-C07-4", cons+"|extra-byte probe", pos(c, probe), sprintf("%d exits after the limited read: short ⇒ ok, full ⇒ probe; extra bytes ⇒ too large", nall), why, witness(bad)...)
 }
 
-// muxResultHolders returns the variables that receive the (first) result of call, directly or
-// through same-package helpers that return it (`return call(..)`, `err = call(..); return err`).
-func muxResultHolders(vf *muxFlow, call *ast.CallExpr) map[types.Object]*ast.Ident {
+// muxResultHolders returns the variables that receive result idx of call, directly or through
+// same-package helpers that pass it on (`return call(..)`, `x, err = call(..); return y, err`).
+func muxResultHolders(vf *muxFlow, call *ast.CallExpr, idx int) map[types.Object]*ast.Ident {
 	out := map[types.Object]*ast.Ident{}
-	var visit func(call *ast.CallExpr, depth int)
-	returnedBy := func(o types.Object) []*types.Func {
-		var fs []*types.Func
+	type slot struct {
+		fo  *types.Func
+		idx int
+	}
+	// the (function, result position) pairs that return variable o
+	returnedBy := func(o types.Object) []slot {
+		var fs []slot
 		for fo, rets := range vf.rets {
 			for _, r := range rets {
-				switch {
-				case len(r.Results) >= 1:
-					if id := muxIdentOf(r.Results[0]); id != nil && vf.obj(id) == o {
-						fs = append(fs, fo)
+				for j, e := range r.Results {
+					if id := muxIdentOf(e); id != nil && vf.obj(id) == o {
+						fs = append(fs, slot{fo, j})
 					}
-				case len(r.Results) == 0:
-					if ids := vf.results[fo]; len(ids) >= 1 && vf.obj(ids[0]) == o {
-						fs = append(fs, fo)
+				}
+				if len(r.Results) == 0 {
+					for j, id := range vf.results[fo] {
+						if vf.obj(id) == o {
+							fs = append(fs, slot{fo, j})
+						}
 					}
 				}
 			}
 		}
 		return fs
 	}
-	seen := map[*ast.CallExpr]bool{}
-	visit = func(call *ast.CallExpr, depth int) {
-		if depth > 4 || seen[call] {
+	type key struct {
+		call *ast.CallExpr
+		idx  int
+	}
+	seen := map[key]bool{}
+	var visit func(call *ast.CallExpr, idx, depth int)
+	visit = func(call *ast.CallExpr, idx, depth int) {
+		if depth > 4 || seen[key{call, idx}] {
 			return
 		}
-		seen[call] = true
+		seen[key{call, idx}] = true
 		for _, g := range vf.fns {
 			ast.Inspect(g.Body, func(n ast.Node) bool {
 				switch x := n.(type) {
 				case *ast.AssignStmt:
-					if len(x.Rhs) == 1 && ast.Unparen(x.Rhs[0]) == ast.Expr(call) {
-						if id := muxIdentOf(x.Lhs[0]); id != nil && id.Name != "_" {
+					if len(x.Rhs) == 1 && ast.Unparen(x.Rhs[0]) == ast.Expr(call) && idx < len(x.Lhs) {
+						if id := muxIdentOf(x.Lhs[idx]); id != nil && id.Name != "_" {
 							o := vf.obj(id)
 							if _, done := out[o]; !done {
 								out[o] = id
-								for _, fo := range returnedBy(o) {
-									for _, site := range vf.sites[fo] {
-										visit(site.Call, depth+1)
+								for _, sl := range returnedBy(o) {
+									for _, site := range vf.sites[sl.fo] {
+										visit(site.Call, sl.idx, depth+1)
 									}
 								}
 							}
 						}
 					}
 				case *ast.ValueSpec:
-					if len(x.Values) == 1 && ast.Unparen(x.Values[0]) == ast.Expr(call) && len(x.Names) >= 1 {
-						out[vf.obj(x.Names[0])] = x.Names[0]
+					if len(x.Values) == 1 && ast.Unparen(x.Values[0]) == ast.Expr(call) && idx < len(x.Names) {
+						out[vf.obj(x.Names[idx])] = x.Names[idx]
 					}
 				case *ast.ReturnStmt:
 					if len(x.Results) == 1 && ast.Unparen(x.Results[0]) == ast.Expr(call) {
@@ -976,7 +1151,7 @@ func muxResultHolders(vf *muxFlow, call *ast.CallExpr) map[types.Object]*ast.Ide
 							for _, r := range rets {
 								if r == x {
 									for _, site := range vf.sites[fo] {
-										visit(site.Call, depth+1)
+										visit(site.Call, idx, depth+1)
 									}
 								}
 							}
@@ -987,7 +1162,7 @@ func muxResultHolders(vf *muxFlow, call *ast.CallExpr) map[types.Object]*ast.Ide
 			})
 		}
 	}
-	visit(call, 0)
+	visit(call, idx, 0)
 	return out
 }
 
@@ -1001,10 +1176,61 @@ func muxHolderNil(f *flow.Func, st *flow.State, hs map[types.Object]*ast.Ident) 
 	return flow.Unknown
 }
 
+// c07BuildResponseFn resolves ServerPool.buildResponse by role: the function of the proxy package
+// whose reach fetches the backend response's payload and hands the response to the pipeline
+// (SetOutputResponse), and which does not merely call another such function. rule == "" suppresses
+// the anchor error.
+func c07BuildResponseFn(c *core.Ctx, rule string) *flow.Func {
+	px := "pkg/filters/proxy"
+	does := func(g *flow.Func) bool {
+		fetch, out := false, false
+		inspectReach(g, 2, func(h *flow.Func, n ast.Node) bool {
+			if call, ok := n.(*ast.CallExpr); ok {
+				if calleeIs(h, call, "(*"+hp+".Response).FetchPayload") {
+					fetch = true
+				}
+				if methodName(call) == "SetOutputResponse" {
+					out = true
+				}
+			}
+			return true
+		})
+		return fetch && out
+	}
+	cands := funcsByRole(c, px, func(g *flow.Func, fd *ast.FuncDecl) bool { return does(g) })
+	isCand := map[types.Object]bool{}
+	for _, g := range cands {
+		isCand[muxFuncObj(g)] = true
+	}
+	var minimal []*flow.Func
+	for _, g := range cands {
+		callsCand := muxOwnCalls(g, func(call *ast.CallExpr) bool {
+			fo, ok := g.Callee(call).(*types.Func)
+			return ok && isCand[fo.Origin()] && fo.Origin() != muxFuncObj(g)
+		})
+		if !callsCand {
+			minimal = append(minimal, g)
+		}
+	}
+	if len(minimal) == 1 {
+		c.Count("functions_analysed", 1)
+		return minimal[0]
+	}
+	for _, g := range minimal {
+		if fd, ok := g.Node.(*ast.FuncDecl); ok && fd.Name.Name == "buildResponse" {
+			return g
+		}
+	}
+	if rule != "" {
+		c.Errorf("%s: anchor: cannot resolve the function that builds the proxy's response (fetches the backend response's payload and sets the output response; %d candidates)", rule, len(minimal))
+	}
+	return nil
+}
+
 func c07Resp(c *core.Ctx) {
 	px := "pkg/filters/proxy"
-	if f := fn(c, px, "ServerPool", "buildResponse"); f != nil {
-		cons := fname(px, "ServerPool", "buildResponse")
+	if f := c07BuildResponseFn(c, "R-C07-5"); f != nil {
+		cons := muxFuncConstruct(f)
 		fns := reach(f, 3)
 		vf := newMuxFlow(fns)
 		fetch, _ := c07RespFetch(f)
@@ -1018,7 +1244,7 @@ func c07Resp(c *core.Ctx) {
 		}
 		var holders map[types.Object]*ast.Ident
 		if fetch != nil {
-			holders = muxResultHolders(vf, fetch)
+			holders = muxResultHolders(vf, fetch, 0)
 		}
 		if fetch != nil && len(holders) == 0 && len(outs) > 0 {
 			c.Violate("R-C07-5", cons+"|failed fetch ⇒ error, no output response", pos(c, fetch), "the error of resp.FetchPayload is discarded (the proxy reports success for a response it could not read within serverMaxBodySize)")
@@ -1068,16 +1294,24 @@ func c07Resp(c *core.Ctx) {
 			}
 		}
 	}
-	if f := fn(c, px, "ServerPool", "doHandle"); f != nil {
-		cons := fname(px, "ServerPool", "doHandle")
-		brObj := types.Object(nil)
-		if b := fnOpt(c, px, "ServerPool", "buildResponse"); b != nil {
-			brObj = muxFuncObj(b)
-		}
-		opaque := map[types.Object]bool{}
-		if brObj != nil {
-			opaque[brObj] = true
-		}
+	// the caller of buildResponse (doHandle, or the part of it the call was moved into)
+	var callers []*flow.Func
+	var brObj types.Object
+	if b := c07BuildResponseFn(c, ""); b != nil {
+		brObj = muxFuncObj(b)
+		callers = funcsByRole(c, px, func(g *flow.Func, fd *ast.FuncDecl) bool {
+			return muxOwnCalls(g, func(call *ast.CallExpr) bool {
+				fo, ok := g.Callee(call).(*types.Func)
+				return ok && fo.Origin() == brObj
+			})
+		})
+	}
+	if brObj != nil && len(callers) == 0 {
+		c.Errorf("R-C07-5: anchor: no function of the proxy calls buildResponse")
+	}
+	for _, f := range callers {
+		cons := muxFuncConstruct(f)
+		opaque := map[types.Object]bool{brObj: true}
 		fns := muxReach(f, 3, opaque)
 		vf := newMuxFlow(fns)
 		var br *ast.CallExpr
@@ -1090,10 +1324,10 @@ func c07Resp(c *core.Ctx) {
 		}
 		var holders map[types.Object]*ast.Ident
 		if br != nil {
-			holders = muxResultHolders(vf, br)
+			holders = muxResultHolders(vf, br, 0)
 		}
 		if br == nil || len(holders) == 0 {
-			c.Errorf("R-C07-5: anchor: doHandle does not bind buildResponse's error")
+			c.Errorf("R-C07-5: anchor: %s does not bind buildResponse's error", cons)
 			return
 		}
 		res := muxAnalyzeInl(c, f, flow.Config{NoHavoc: true, OnCall: func(st *flow.State, call *ast.CallExpr, callee types.Object, d bool) {
